@@ -285,10 +285,20 @@ func TestCheck(t *testing.T) {
 	})
 
 	// --- perft observation points: debug.Perft and the UCI perft command vs reference perft
-	np := r.N(1500, 60000)
+	np := r.N(6000, 120000)
 	ev.Parallel(np, func(wk, i int) {
 		rng := r.RNG("c01-perft", i)
 		p := gen.AnyPos(rng)
+		if i%3 == 0 {
+			// a raw e.p. target in the FEN (capture legal or not), the way GUIs write it
+			if q, ok := gen.RawEP(rng); ok {
+				p = q
+				r.Count("perft_roots_with_raw_ep_target", 1)
+				if nq := q.Normalised(); nq.EP != q.EP {
+					r.Count("perft_roots_with_ep_target_that_cannot_be_captured", 1)
+				}
+			}
+		}
 		d := 1 + rng.IntN(3)
 		want := p.PerftBulk(d)
 		b := eng.MustBoard(&p)
@@ -304,6 +314,11 @@ func TestCheck(t *testing.T) {
 	for i := 0; i < nu; i++ {
 		rng := r.RNG("c01-uciperft", i)
 		p := gen.AnyPos(rng)
+		if i%3 == 0 {
+			if q, ok := gen.RawEP(rng); ok {
+				p = q
+			}
+		}
 		d := 1 + rng.IntN(2)
 		want := p.PerftBulk(d)
 		var out, errb bytes.Buffer
@@ -319,7 +334,7 @@ func TestCheck(t *testing.T) {
 		}
 	}
 	r.Finish("in_check", "double_check", "with_castling", "with_en_passant", "with_promotion", "with_underpromotion", "with_pinned_piece",
-		"no_legal_move", "positions_reached", "positions_reloaded", "perft_compared", "uci_perft_compared", "positions_small_exhaustive", "positions_parsed_into_reused_board", "positions_reached_by_double_push")
+		"no_legal_move", "positions_reached", "positions_reloaded", "perft_compared", "perft_roots_with_ep_target_that_cannot_be_captured", "uci_perft_compared", "positions_small_exhaustive", "positions_parsed_into_reused_board", "positions_reached_by_double_push")
 }
 
 func replay(t *testing.T, r *ev.Run) {
